@@ -69,6 +69,9 @@ def lookup_unqualified(X, name: str):
         a = sc.colmap.get(name)
         if a is not None:
             if a is AMBIG:
+                if mode and sc.sel_vals is not None and name in sc.sel_vals:
+                    # GROUP BY / ORDER BY: a name that is ambiguous in FROM resolves to the select-list item of that name
+                    return sc.sel_vals[name]
                 raise SQLError(1052, f"Column '{name}' in field list is ambiguous", '23000')
             row = sc.rows.get(a)
             return None if row is None else row[name]
